@@ -18,7 +18,7 @@ import ast
 from ..model import AnalysisError
 from ..sym import U, is_const, Run, run_function
 from ..util import (bind_call, strip_await, where, SA, SERVER, MANAGER,
-                    ns_or_default)
+                    ns_or_default, walk_own)
 from .common import effects, txt
 from . import msgpath
 
@@ -175,7 +175,48 @@ def r8_engineio_ordered(ctx):
                   f, bad.node if bad else None))
 
 
+ADMISSION_TABLES = {'rooms', 'pending_disconnect'}
+
+
+def r9_one_admission_table(ctx):
+    """who is connected is decided by ONE table: the gate (is_connected), the
+    transport->sid resolver and the sid->transport resolver all read
+    rooms[namespace][None] (plus the pending marks) and nothing else.  A
+    second index consulted by one of them can disagree with the table the
+    others read (after a refused duplicate CONNECT, a failed entry, ...):
+    events of a connected client are then resolved to a sid the gate does
+    not know."""
+    m = ctx.model
+    from ..sym import with_new_helpers
+    for fname in ('is_connected', 'sid_from_eio_sid', 'eio_sid_from_sid'):
+        f = m.method('BaseManager', fname)
+        construct = 'BaseManager.' + fname
+        other = []
+        reads_rooms = False
+        for g in with_new_helpers(m, f):
+            for n in walk_own(g.node):
+                if isinstance(n, ast.Attribute) and U(n.value) == 'self' \
+                        and m.lookup(f.cls, n.attr) is None:
+                    if n.attr == 'rooms':
+                        reads_rooms = True
+                    elif n.attr not in ADMISSION_TABLES and \
+                            n.attr not in ('logger', 'server'):
+                        other.append((g, n))
+        ctx.check(reads_rooms and not other, construct, 'reads the admission '
+                  'table rooms[namespace][None] and no other index',
+                  key='one-table', reason='%s consults %s: a table the other '
+                  'admission functions do not read, so the resolved sid and '
+                  'the connected-test can disagree' % (
+                      fname, sorted({'self.' + n.attr for _, n in other})
+                      or 'no table at all'),
+                  where=where(other[0][0], other[0][1]) if other
+                  else where(f))
+
+
 def run(ctx):
+    ctx.rule('C05.R9', 'gate and sid resolvers read one admission table',
+             floor=3)
+    r9_one_admission_table(ctx)
     ctx.rule('C05.R1', 'packet-type dispatch table of the server (7 types + '
              'unknown): one arm each, arguments are the decoded packet\'s '
              'own fields and the own transport id', floor=30)
